@@ -75,6 +75,9 @@ def run_harness(ctx, exe, lines, timeout=900):
     return out, None
 
 
+MAX_CRASHES = 40
+
+
 def run_chunks(ctx, exe, model_args, lines, nchunks, want_model=True):
     """split `lines` into chunks; run harness and model on each chunk concurrently.  Returns (impl, model, crashes)
     where crashed chunks are re-run line by line to isolate the offending input."""
@@ -93,18 +96,24 @@ def run_chunks(ctx, exe, model_args, lines, nchunks, want_model=True):
     impl, model, crashes = [], [], []
     for ch, (i, m, crash) in zip(chunks, res):
         if crash:
-            k = crash[0] if isinstance(crash[0], int) else 0
-            bad = ch[min(k, len(ch) - 1)]
-            crashes.append((bad, crash[1], crash[2]))
-            # answers for the rest of the chunk: run the remaining lines one harness each (rare path)
-            i = i[:k] + ["CRASH rc=%s" % crash[1]]
-            for l in ch[k + 1:]:
-                o, c = run_harness(ctx, exe, [l], timeout=60)
-                if c:
-                    crashes.append((l, c[1], c[2]))
-                    i.append("CRASH rc=%s" % c[1])
-                else:
-                    i.append(o[0])
+            # isolate: the line the harness died on is the culprit; the rest of the chunk goes through a fresh harness in
+            # one batch (again and again if it dies again, at most MAX_CRASHES times — then the rest is marked not run)
+            done, rest, cur, cr = [], ch, i, crash
+            for _ in range(MAX_CRASHES):
+                k = cr[0] if isinstance(cr[0], int) else 0
+                k = min(k, len(rest) - 1)
+                crashes.append((rest[k], cr[1], cr[2]))
+                done += cur[:k] + ["CRASH rc=%s" % cr[1]]
+                rest = rest[k + 1:]
+                if not rest:
+                    break
+                cur, cr = run_harness(ctx, exe, rest)
+                if not cr:
+                    done += cur
+                    rest = []
+                    break
+            done += ["CRASH not-run"] * len(rest)
+            i = done
         infra(len(i) == len(ch), "harness %s: %d answers for a chunk of %d operations" % (exe, len(i), len(ch)))
         impl += i
         model += m
@@ -577,6 +586,9 @@ def gen_readheader_lines(ctx):
             m = m[:rng.randrange(len(m))]                                      # cut anywhere: short header, short record, short padding
         add(m[:24576])
     limits = tar_limits()
+    for kind in "LKx":                                                             # exactly at, one below, one above each limit
+        for delta in (-1, 0, 1):
+            add(TL.tar_size_gate(rng, limits, kind, delta)[0])
     for _ in range(40 if q else 400):
         add(TL.tar_size_gate(rng, limits)[0])
     for _ in range(60 if q else 600):
@@ -974,8 +986,9 @@ def check_tools(ctx, stats):
         tjob("sparse:inconsistent", data, markers)
     # extension records around TAR_MAX_PATH_LEN / _SYMLINK_LEN / _PAX_LEN with all their data present
     limits = tar_limits()
-    for _ in range(24 if q else 300):
-        data, rej = TL.tar_size_gate(rng, limits)
+    gates = [TL.tar_size_gate(rng, limits, kind, delta) for kind in "LKx" for delta in (-1, 0, 1)]
+    gates += [TL.tar_size_gate(rng, limits) for _ in range(15 if q else 300)]
+    for data, rej in gates:
         tjob("gate:" + ("over" if rej else "within"), data, None, (), "extension record larger than the implementation limit" if rej else None)
     # names nested around / far beyond SQFS_MAX_DIR_NESTING (recursion in the tree post-processing and the writers)
     limit = max_dir_nesting()
